@@ -163,8 +163,8 @@ def prune_build(keep_days=2.0):
 # ------------------------------------------------------------------------------------------------------------------
 def san_env(rundir):
     env = dict(os.environ)
-    env['ASAN_OPTIONS'] = 'detect_leaks=0:abort_on_error=0:log_path=%s/asan:allocator_may_return_null=1:detect_stack_use_after_return=0' % rundir
-    env['UBSAN_OPTIONS'] = 'print_stacktrace=1:log_path=%s/ubsan' % rundir
+    env['ASAN_OPTIONS'] = 'detect_leaks=0:abort_on_error=0:exitcode=99:log_path=%s/asan:allocator_may_return_null=1:detect_stack_use_after_return=0' % rundir
+    env['UBSAN_OPTIONS'] = 'print_stacktrace=1:exitcode=99:log_path=%s/ubsan' % rundir
     env['VERIF_DIR'] = VERIF
     env.pop('RC_PARAMS', None)
     return env
@@ -262,7 +262,7 @@ def check(pid, tier, repo, seed, scale, clauses, jobs, keep=False):
     os.makedirs(os.path.join(VERIF, 'replays', pid), exist_ok=True)
     seen_clauses = set()
     for cl, kind, case, msg, k in failures:
-        if cl in seen_clauses and cl is not None:
+        if cl in seen_clauses:
             continue
         if not case or not os.path.exists(case):
             unreproduced.append((cl, kind, msg)); continue
